@@ -1,4 +1,3 @@
-import sys
 #!/usr/bin/env python3
 """tools/keep_seeded.py <src dir> <seeded id> <PID> <exit code of check> "<how it was caught / missed>"
 Copies patch.diff [c.diff] demo.py meta.json into /verif/seeded/<id>/ and records what was run."""
